@@ -463,6 +463,48 @@ def h_copy_fault(entry: int, newjob: bool, which: int, err: int):
     assert not problems
 
 
+def _type_mix_case(entry, which, strat):
+    """one name, a FILE on one side and a DIRECTORY on the other: the source entry cannot be brought over - a sync that returns normally
+    without it (and without raising) silently breaks 'every non-excluded source file ... is now present'"""
+    problems = []
+    with SL.Scratch() as sc:
+        src, dst = SL.build(sc.root, 3, 0, 0, 0, 0, 0)
+        sj, dj = src.open_job(SL.SPS[0]), dst.open_job(SL.SPS[0])
+        if which == 0:
+            SL.put(sj.fn("x"), b"FILE", SL.T_MID)
+            SL.put(dj.fn("x/inner.txt"), b"DIR", SL.T_MID)
+        else:
+            SL.put(sj.fn("x/inner.txt"), b"DIR", SL.T_MID)
+            SL.put(dj.fn("x"), b"FILE", SL.T_MID)
+        bd = SL.snap(dst.path)
+        kw = dict(recursive=True, strategy=SL.strategy(strat))
+        if entry == 0:
+            out = SL.outcome(lambda: dst.sync(src, check_schema=False, **kw))
+        else:
+            out = SL.outcome(lambda: dj.sync(sj, **kw))
+        ad = SL.snap(dst.path)
+        pre = "workspace/%s/" % sj.id
+        if out == "ok":
+            arrived = (ad.get(pre + "x") == b"FILE") if which == 0 else (ad.get(pre + "x/inner.txt") == b"DIR")
+            if not arrived:
+                problems.append(("sync returned normally, but the source entry did not arrive (file/directory name collision ignored)", which))
+        elif isinstance(out, tuple):
+            problems.append(("unexpected exception", out))
+        if out != "ok" and ad != bd:
+            problems.append(("conflict reported, but the destination changed",))
+    return problems
+
+
+def h_type_mix(entry: int, which: int, strat: int):
+    assert 0 <= entry <= 1 and 0 <= which <= 1 and 0 <= strat <= 2
+    fresh_path()
+    entry, which, strat = ci(entry, 0, 1), ci(which, 0, 1), ci(strat, 0, 2)
+    with nt():
+        problems = _type_mix_case(entry, which, strat)
+    reached()
+    assert not problems
+
+
 HARNESSES = [
     dict(name="h_files", twin="h_files__reach", timeout=(900, 3000), parts=(36, 36), unblock=True),
     dict(name="h_docs", timeout=(900, 3000), parts=(7, 7), unblock=True),
@@ -471,4 +513,5 @@ HARNESSES = [
     dict(name="h_halfmade", timeout=(300, 600), unblock=True),
     dict(name="h_linked_dir", timeout=(300, 600), unblock=True),
     dict(name="h_copy_fault", timeout=(300, 600), unblock=True),
+    dict(name="h_type_mix", timeout=(300, 600), unblock=True),
 ]
